@@ -988,6 +988,10 @@ class OdeSystem(object):
         if not np.isinf(D.ar_numpy.to_numpy(tf)) and D.ar_numpy.abs(tf - self.__t[self.counter]) < D.ar_numpy.maximum(D.tol_epsilon(self.__y[self.counter].dtype), 0.5 * D.epsilon(self.__y[self.counter].dtype) * D.ar_numpy.abs(tf)):
             return
         steps = 0
+        # the constants may have been changed since the previous call: the end slope cached by the integrator belongs to
+        # the right-hand side as it was then
+        if hasattr(self.integrator, "final_time"):
+            self.integrator.final_time = None
 
         events, is_terminal, direction, last_occurrence, requires_dstate = prepare_events(events, self.__y[0])
 
@@ -1125,6 +1129,9 @@ class OdeSystem(object):
 
                 for i in callback:
                     i(self)
+                if callback and hasattr(self.integrator, "final_time"):
+                    # (a callback may change the constants as well)
+                    self.integrator.final_time = None
 
                 if tqdm_progress_bar is not None:
                     tqdm_progress_bar.total = tqdm_progress_bar.n
